@@ -10,6 +10,7 @@
 -/
 import IocProofs.Lemmas.ValueC18
 import IocProofs.Lemmas.ValueTwice
+import IocProofs.Lemmas.SemStages
 namespace Ioc.C18
 open Ioc Ioc.Tag Ioc.Value
 
@@ -226,5 +227,77 @@ example : valuePipeline goJson toyE toyQ cfgAB (ofString "#{${a} ${op} ${b}} o'c
 example : valuePipeline goJson toyE toyQ cfgAB (ofString "${motd:don't panic},validate=max=8") .string = .error .validate := by decide +kernel
 example : valuePipeline goJson toyE toyQ cfgAB (ofString "${motd:don't},validate=max=8") .string = .ok (.str (ofString "don't")) := by decide +kernel
 example : valuePipeline goJson toyE toyQ cfgAB (ofString "5\" pipe,validate=max=8") .string = .ok (.str (ofString "5\" pipe")) := by decide +kernel
+
+/-! ### the REGENERATED stage functions
+
+    `expr_PostProcessProperties` (with its function literal) and `validate_PostProcessProperties` are the syntax trees of
+    the two processors as they are in /repo now; under the interpretation Ioc.SemStages they are the model loops below for
+    EVERY node list and every behaviour of the expression engine / validator parameters. -/
+section code
+open Ioc.Go Ioc.Sem
+
+/-- the expression stage: on TagVal AS THE QUOTE STAGE LEFT IT (`tagValNow` reads the log), each `#{…}` through
+    compile → run → format, the bounded loop of `el.ReplaceAllContent`, TagVal stored only after a loop without error -/
+theorem C18_code_expr_stage (props : List SProp) (ops : ElOps String) (compile : String → Except String Nat)
+    (runP : Nat → Except String Nat) (fmtAny : Nat → Except String String) (bound fuel : Nat)
+    (hE : ∀ s, ops.isEmpty s = (s == "")) (hfuel : bound + 1 ≤ fuel) (n : Nat) (w : SW) :
+    run (exprPrims props ops compile runP fmtAny bound fuel) Progs.expr_PostProcessProperties
+        [.list ((List.range' 0 n).map (fun i => Go.Val.ref i 20)), .str "c", .str "n"] w =
+      some (stageResult (stageLoop (exprNode props ops compile runP fmtAny bound fuel) (List.range' 0 n) w).2,
+            (stageLoop (exprNode props ops compile runP fmtAny bound fuel) (List.range' 0 n) w).1) :=
+  expr_sem props ops compile runP fmtAny bound fuel hE hfuel n w
+
+/-- the expression stage sees what the quote stage stored: after `setTagVal i s` the text it works on is `s` -/
+theorem C18_code_expr_reads_quote_result (props : List SProp) (w : SW) (i : Nat) (s : String) :
+    tagValNow props (w ++ [.setTagVal i s]) i = s := by
+  unfold tagValNow
+  have : ∀ (w : SW), lastTagVal (w ++ [.setTagVal i s]) i = some s := by
+    intro w
+    induction w with
+    | nil => simp [lastTagVal]
+    | cons ev rest ih => simp [lastTagVal, ih]
+  rw [this]; rfl
+
+theorem C18_code_validate_stage (props : List SProp) (vS : Nat → Option String) (vV : Nat → String → Option String)
+    (n : Nat) (w : SW) :
+    run (validPrims props vS vV) Progs.validate_PostProcessProperties
+        [.list ((List.range' 0 n).map (fun i => Go.Val.ref i 20)), .str "c", .str "n"] w =
+      some (stageResult (stageLoop (validateNode props vS vV) (List.range' 0 n) w).2,
+            (stageLoop (validateNode props vS vV) (List.range' 0 n) w).1) :=
+  validate_sem props vS vV n w
+
+/-- what a node decides: only configuration nodes with a `validate` argument, a nil pointer is skipped, a struct goes to
+    validator.Struct, any other readable value to validator.Var with the joined constraint text -/
+theorem C18_code_validate_node (props : List SProp) (vS : Nat → Option String) (vV : Nat → String → Option String)
+    (i : Nat) (w : SW) :
+    (validateNode props vS vV i w).2 = (match validateNodeDecision props vS vV i with | .fail e => some e | _ => none) :=
+  validateNode_decision props vS vV i w
+
+/-- a node without the argument is never handed to the validator (no event, no error) -/
+theorem C18_code_validate_only_when_asked (props : List SProp) (vS : Nat → Option String) (vV : Nat → String → Option String)
+    (i : Nat) (w : SW) (h : (spropAt props i).validate = none) : validateNode props vS vV i w = (w, none) := by
+  unfold validateNode
+  cases (spropAt props i).cfgType <;> simp [h]
+
+/-- the hand-written validate stage is the same decision (the model has one validator function for structs and variables,
+    every bound value can be read) -/
+theorem C18_validateStage_is_decision (validate : FVal → List Bytes → Bool) (args : Tag.Args) (ty : FieldTy) (b : Option FVal) :
+    validateStage validate args ty b =
+      match validateDecision true (Tag.find args kValidate) (isPtrTy ty && decide (b.getD (zero ty) = .nil)) false true
+              (none : Option Err) (fun cs => if validate (b.getD (zero ty)) cs then none else some Err.validate) with
+      | .fail e => .error e
+      | _ => .ok b := by
+  unfold validateStage validateDecision
+  cases Tag.find args kValidate with
+  | none => simp
+  | some cs =>
+    by_cases hp : isPtrTy ty = true ∧ b.getD (zero ty) = .nil
+    · simp [hp.1, hp.2]
+    · have : (isPtrTy ty && decide (b.getD (zero ty) = .nil)) = false := by
+        cases h1 : isPtrTy ty <;> simp_all
+      simp only [hp, if_false, this, Bool.false_eq_true, Bool.not_true]
+      cases validate (b.getD (zero ty)) cs <;> simp
+
+end code
 
 end Ioc.C18
